@@ -1054,6 +1054,13 @@ func (c *Conn) readTopicMetadatav1(brokers map[int32]Broker, topicMetadata []top
 			// We only report errors if they happened for the topic of
 			// the connection, otherwise the topic will simply have no
 			// partitions in the result set.
+			if c.topic == "" && len(topicMetadata) > 1 && Error(t.TopicErrorCode) == UnknownTopicOrPartition {
+				// Several topics were asked for on a connection without a
+				// topic and this one does not exist (yet): report it, but
+				// together with the partitions of the other topics.
+				err = UnknownTopicOrPartition
+				continue
+			}
 			return nil, Error(t.TopicErrorCode)
 		}
 		for _, p := range t.Partitions {
@@ -1076,6 +1083,13 @@ func (c *Conn) readTopicMetadatav6(brokers map[int32]Broker, topicMetadata []top
 			// We only report errors if they happened for the topic of
 			// the connection, otherwise the topic will simply have no
 			// partitions in the result set.
+			if c.topic == "" && len(topicMetadata) > 1 && Error(t.TopicErrorCode) == UnknownTopicOrPartition {
+				// Several topics were asked for on a connection without a
+				// topic and this one does not exist (yet): report it, but
+				// together with the partitions of the other topics.
+				err = UnknownTopicOrPartition
+				continue
+			}
 			return nil, Error(t.TopicErrorCode)
 		}
 		for _, p := range t.Partitions {
